@@ -7,4 +7,4 @@ mkdir -p $OUT
 cp gen/model.ml gen/model.mli conv.ml run_*.ml modelrun.ml $OUT/
 cd $OUT
 ocamlfind ocamlopt -w -a -O3 -unboxed-types 2>/dev/null >/dev/null || true
-ocamlfind ocamlopt -w -a -package str -linkpkg model.mli model.ml conv.ml run_fmt.ml run_buf.ml run_cmp.ml run_bufmut.ml run_heap.ml run_recycle.ml modelrun.ml -o ../modelrun
+ocamlfind ocamlopt -w -a -package str -linkpkg model.mli model.ml conv.ml run_fmt.ml run_buf.ml run_cmp.ml run_bufmut.ml run_heap.ml run_recycle.ml run_adv.ml modelrun.ml -o ../modelrun
